@@ -97,7 +97,7 @@ pub fn c19(tier: &str, seed: u64, meta: &str) -> Report {
     let mut rep = par_items(total, |_| (), |_, i, rep| {
         let mut rng = Rng::new(seed ^ i.wrapping_mul(0xC19));
         let scratch = Scratch::new("c19");
-        let phonetic = i % 2 == 0;
+        let mut phonetic = i % 2 == 0;
         let mut o = if phonetic { Opts::phonetic(scratch.path()) } else { Opts::fixed(PROBHAT, scratch.path()) };
         o.database = i % 5 != 4;
         o.phonetic_suggestion = rng.chance(2, 3);
@@ -124,7 +124,7 @@ pub fn c19(tier: &str, seed: u64, meta: &str) -> Report {
             let mut last_len = 1usize;
             for n in 0..nev {
                 if !ctx_alive { break; }
-                let ev = if long && !rng.chance(1, 25) { 0 } else { rng.below(12) };
+                let ev = if long && !rng.chance(1, 25) { 0 } else { rng.below(13) };
                 let p: *mut Suggestion = match ev {
                     0..=6 => {
                         let (k, m) = if phonetic { (fpr.p.keys[rng.pick(&"abdeghiklmnoprstu`:).\"'".chars().collect::<Vec<_>>())], 0u8) } else { let x = rng.below(fpr.km.keys.len()); (fpr.km.keys[x].0, fpr.km.keys[x].1) };
@@ -135,6 +135,20 @@ pub fn c19(tier: &str, seed: u64, meta: &str) -> Report {
                     7 | 8 => { log.push(json!({"riti_context_backspace_event": rng.below(5) == 0})); ffi!(riti_context_backspace_event(ctx, false)) }
                     9 => { log.push(json!("riti_context_candidate_committed")); let ix = rng.below(last_len.max(1)); ffi!(riti_context_candidate_committed(ctx, ix)); last_len = 1; std::ptr::null_mut() }
                     10 => { log.push(json!("riti_context_finish_input_session")); ffi!(riti_context_finish_input_session(ctx)); last_len = 1; std::ptr::null_mut() }
+                    12 => {
+                        // re-configure the live context (idle): another method / layout, or option flips
+                        if ffi!(riti_context_ongoing_input_session(ctx)) { ffi!(riti_context_finish_input_session(ctx)); }
+                        if rng.chance(2, 3) { phonetic = !phonetic; }
+                        let mut o2 = if phonetic { Opts::phonetic(scratch.path()) } else { Opts::fixed(PROBHAT, scratch.path()) };
+                        o2.database = o.database; o2.ansi = rng.chance(1, 3); o2.english = rng.chance(1, 2); o2.smart_quote = rng.chance(1, 2);
+                        o2.phonetic_suggestion = rng.chance(2, 3); o2.fixed_suggestion = rng.chance(2, 3); o2.kar_order = o.kar_order;
+                        log.push(json!({"riti_context_update_engine": format!("{:?}", o2)}));
+                        let cfg2 = Cfg::new(&o2);
+                        ffi!(riti_context_update_engine(ctx, cfg2.0));
+                        drop(cfg2);
+                        last_len = 1;
+                        std::ptr::null_mut()
+                    }
                     _ => { let _ = ffi!(riti_context_ongoing_input_session(ctx)); std::ptr::null_mut() }
                 };
                 if std::env::var("RV_DEBUG19").is_ok() && i == 0 { eprintln!("after event {} ({:?}): live {:?}", n, log.last(), live()); }
@@ -173,7 +187,7 @@ pub fn c19(tier: &str, seed: u64, meta: &str) -> Report {
         rep.nontrivial_key(&format!("{}", i));
         if rep.samples.len() < 1 && i % 499 == 3 { rep.sample(json!({"calls": log})); }
     });
-    rep.extra.insert("rule".into(), json!("each case is a full life cycle through the exported C symbols only: config (new, setters, free), context (new, key / backspace / commit / finish / ongoing, free), suggestion handles kept alive and read out (length, index, auxiliary, candidates, pre-edit, lonely, is_lonely, is_empty) when created (one case in twelve composes 110-190 keys without a commit, so read-outs of several hundred bytes occur), again after later calls on the context and after the context was freed, then freed in random order; every returned string is compared byte-wise with the Rust API value captured at creation and freed; riti_string_free(NULL) is called; a counting global allocator (per thread) must be back at its baseline at the end; non-trivial = every case"));
+    rep.extra.insert("rule".into(), json!("each case is a full life cycle through the exported C symbols only: config (new, setters, free), context (new, key / backspace / commit / finish / ongoing / update_engine with another method or layout, free), suggestion handles kept alive and read out (length, index, auxiliary, candidates, pre-edit, lonely, is_lonely, is_empty) when created (one case in twelve composes 110-190 keys without a commit, so read-outs of several hundred bytes occur), again after later calls on the context and after the context was freed, then freed in random order; every returned string is compared byte-wise with the Rust API value captured at creation and freed; riti_string_free(NULL) is called; a counting global allocator (per thread) must be back at its baseline at the end; non-trivial = every case"));
     rep.extra.insert("memory_safety".into(), json!("observed by allocation counting here; invalid accesses are looked for by the thorough tier under valgrind"));
     rep
 }
